@@ -89,7 +89,7 @@ class Pipeline:
     hook.wants_lit = True
     hook.override_names = ('ROM128', 'ROM_PLUS2', 'ROM48')
 
-    def sna2skool(self, snap, ctl_lines, start, end, base=10, case=2, line_width=79, ctl_range=None, **config):
+    def sna2skool(self, snap, ctl_lines, start, end, base=10, case=2, line_width=79, ctl_range=None, handle_rst=0, **config):
         self.lines, self.warnings = [], []
         self.files['in.ctl'] = [l + '\n' for l in ctl_lines]
         cfc = self.cf.sibling('ctlparser')
@@ -97,8 +97,8 @@ class Pipeline:
         cfc.call(ctl, 'parse_ctls', ['in.ctl'], *(ctl_range or (start, end)))
         cfg = dict(self.defaults)
         cfg.update(config)
-        cfg['HandleRST'] = 0
-        options = Rec(comments=0, line_width=line_width, base=base, case=case, handle_rst=0)
+        cfg['HandleRST'] = handle_rst
+        options = Rec(comments=0, line_width=line_width, base=base, case=case, handle_rst=handle_rst)
         w = self.cf.new('SkoolWriter', snap, ctl, options, cfg)
         self.cf.call(w, 'write_skool')
         return list(self.lines)
@@ -226,3 +226,40 @@ def run(ctx, repo):
                               (base, len(image), len(want), start, i, block, list(want[i:i + 6]), list(image[i:i + 6]), name, text[:12], P.warnings[:2]))
         else:
             ctx.ok({'case': k, 'ctl': ctl[:4], 'bytes': len(want)} if k % 10 == 0 else None)
+
+
+def rst_rule(ctx, repo):
+    """C01.8 (*fold*): HandleRST.  RST 8 followed by its argument byte, in the middle of code, as the last two bytes of memory, and as the
+    very last byte of memory (no room for an argument): the skool file sna2skool -r writes reassembles to the original bytes."""
+    ctx.rule('C01.8-rst', 'sna2skool with HandleRST (-r) -> skool2bin folded on images with RST 8 and its argument in the middle of code and at the top of memory: the reassembled image equals the original bytes', floor=5)
+    P = Pipeline(repo)
+    where = 'skoolkit/rst.py, skoolkit/disassembler.py, skoolkit/snaskool.py'
+    cases = [('RST 8 + argument inside code', 40000, [0x00, 0xCF, 0x07, 0xAF, 0xC9]),
+             ('RST 8 + argument, then RST 16 (no argument configured)', 40000, [0xCF, 0xFF, 0xD7, 0xC9]),
+             ('RST 8 at 65534, argument at 65535', 65530, [0x00, 0x00, 0x00, 0xC9, 0xCF, 0x41]),
+             ('RST 8 at 65535 (no room for its argument)', 65532, [0x3E, 0x01, 0x00, 0xCF]),
+             ('RST 8 directly before a data block', 50000, [0xCF, 0x05, 0xC9, 1, 2, 3])]
+    for name, start, data in cases:
+        snap = [0] * 65536
+        snap[start:start + len(data)] = data
+        end = start + len(data)
+        ctl = ['c %d' % start] + (['b %d' % (start + 3)] if 'data block' in name else []) + (['i %d' % end] if end < 65536 else [])
+        for base in (10, 16):
+            try:
+                skool = P.sna2skool(snap, ctl, start, end, base=base, handle_rst=1, ctl_range=(0, 65536))
+                org, image = P.skool2bin(skool)
+            except NotLiteral as e:
+                ctx.limit('rst', 'not foldable (%s): %s' % (name, e))
+                continue
+            except (KeyError, IndexError, ValueError, TypeError, AttributeError) as e:
+                ctx.violation('rst ' + name, where, 'sna2skool -r / skool2bin fails with %s: %s on bytes %s at %d' % (type(e).__name__, e, data, start))
+                break
+            text = [l for l in skool if l[:1] in 'bc ' and l.strip()]
+            if org != start or image != bytes(data):
+                ctx.violation('rst ' + name, where, 'sna2skool -r on bytes %s at %d writes %s; skool2bin gives %d bytes at %d: %s%s' % (data, start, text, len(image), org, list(image), '; warnings %s' % P.warnings[:2] if P.warnings else ''))
+                break
+            if any(int(l[1:].split()[0].lstrip('$'), 16 if l[1] == '$' else 10) > 65535 for l in text):
+                ctx.violation('rst ' + name, where, 'sna2skool -r on bytes %s at %d writes a statement beyond the top of memory: %s' % (data, start, text))
+                break
+        else:
+            ctx.ok({'case': name})
